@@ -343,19 +343,23 @@ func BufferSnippet(b []byte) string {
 	return fmt.Sprintf("%q...%q", bStart, bEnd)
 }
 
-func normalizeHeaderValue(ov, ob []byte, headerLength int) (nv, nb []byte, nhl int) {
+// normalizeHeaderValue removes the CR/LF of an obs-folded (multi-line) header value in place.
+//
+// ov lives inside the connection's read buffer, which may end in the middle of the body or of a
+// pipelined message that is still being received, so the bytes after the value must stay where
+// they are: the gap left by the removed bytes is blanked out instead of shifting the buffer.
+// (Blanks before the line end are ignored when the line is scanned again.)
+func normalizeHeaderValue(ov []byte) (nv []byte) {
 	nv = ov
 	length := len(ov)
 	if length <= 0 {
 		return
 	}
 	write := 0
-	shrunk := 0
 	lineStart := false
 	for read := 0; read < length; read++ {
 		c := ov[read]
 		if c == '\r' || c == '\n' {
-			shrunk++
 			if c == '\n' {
 				lineStart = true
 			}
@@ -368,25 +372,10 @@ func normalizeHeaderValue(ov, ob []byte, headerLength int) (nv, nb []byte, nhl i
 		nv[write] = c
 		write++
 	}
-
-	nv = nv[:write]
-	copy(ob[write:], ob[write+shrunk:])
-
-	// Check if we need to skip \r\n or just \n
-	skip := 0
-	if ob[write] == '\r' {
-		if ob[write+1] == '\n' {
-			skip += 2
-		} else {
-			skip++
-		}
-	} else if ob[write] == '\n' {
-		skip++
+	for i := write; i < length; i++ {
+		ov[i] = ' '
 	}
-
-	nb = ob[write+skip : len(ob)-shrunk]
-	nhl = headerLength - shrunk
-	return
+	return nv[:write]
 }
 
 func stripSpace(b []byte) []byte {
